@@ -28,7 +28,7 @@ variant, so the reads generated code performs on them cannot hit `panic!("unexpe
 **The full-strength provider contract is FALSE for the real code** (and for the model, which reproduces it): witnesses
 `provider_f12_witness` (second batch: the reflexive pair of a new element is in `total` at once and in no `delta`),
 `provider_f11_witness`, `provider_f14_witness` (ternary views through reverse maps lose tuples), `provider_f8_witness`,
-`provider_f17_witness`, `provider_f18_witness` (panics), all by evaluation of the model on the sequences that tie C also runs
+`provider_f17_repaired`, `provider_f18_witness` (panics), all by evaluation of the model on the sequences that tie C also runs
 through the real types.  These are findings F12, F11, F14, F8, F17, F18 of KNOWN_FINDINGS.json.
 
 UNPROVED (established only by the ties, inside the stated classes):
@@ -117,8 +117,8 @@ theorem provider_f14_witness :
 /-- F8.  ternary, key 0 receives (1,2), then nothing for one merge, then (2,3): the merge panics. -/
 theorem provider_f8_witness : f8Result = Res.panic := by decide
 
-/-- F17.  `len_estimate` of the view [1,2] on an empty ternary relation panics (division by `sqrt(0) as usize`). -/
-theorem provider_f17_witness : (Ternary.default true true).lenEstimate12 = Res.panic := by decide
+/-- F17 (repaired in the code, `.max(1)`).  `len_estimate` of the view [1,2] on an empty ternary relation no longer panics. -/
+theorem provider_f17_repaired : (Ternary.default true true).lenEstimate12 = Res.ok 0 := by decide
 
 /-- F18.  ternary, key 0: batch {(1,2)}, then batch {(3,3)} (a reflexive pair on a new element): the per-key delta has an empty
 `iter_all` and is dropped from `delta.map`, the reverse maps still name key 0, and the delta view [1] probed with 3 panics. -/
